@@ -52,6 +52,21 @@ Print Assumptions C18_bin_centres_are_midpoints.
 Theorem C18_relevant_window c : (0 < nb_target c)%nat -> (rmax c - rmin c + 1 = nb_target c)%nat.
 Proof. exact (relevant_window_size c). Qed.
 
+(* the requested range: an aligned request [r/N, (r+nb)/N] selects exactly the bins whose centre lies in it, and
+   __init__'s arithmetic (geom_of: binWidth, round(1/binWidth), argmin of the centre distances) recovers N and r from
+   it for every partition up to 24 bins *)
+Theorem C18_relevant_window_is_the_requested_range c (bmin bmax : Q) i : (0 < nb_actual c)%nat -> (0 < nb_target c)%nat ->
+  (bmin == (Z.of_nat (rmin c) # Pos.of_nat (nb_actual c)))%Q ->
+  (bmax == (Z.of_nat (rmin c + nb_target c) # Pos.of_nat (nb_actual c)))%Q ->
+  (in_range c i = true <-> (bmin < centre c i /\ centre c i < bmax)%Q).
+Proof. exact (aligned_window c bmin bmax i). Qed.
+Print Assumptions C18_relevant_window_is_the_requested_range.
+
+Theorem C18_geometry_of_an_aligned_request na r nb : (1 <= na <= 24)%nat -> (1 <= nb)%nat -> (r + nb <= na)%nat ->
+  geom_of nb (Z.of_nat r # Pos.of_nat na) (Z.of_nat (r + nb) # Pos.of_nat na) = (na, r).
+Proof. exact (geom_of_aligned na r nb). Qed.
+Print Assumptions C18_geometry_of_an_aligned_request.
+
 (* non-vacuity: two events on a small configuration satisfy the side conditions *)
 Example C18_nonvacuous :
   let c := {| nb_target := 2; nb_actual := 2; rmin := 0; nflat := 2; crit := 1 # 10 |} in
